@@ -17,7 +17,7 @@ CODE = ["yowsup/layers/__init__.py:YowProtocolLayer._sendIq/processIqRegistry/re
 BOUNDS = {"quick": "step: 1 outstanding request per kind (16 kinds), reply id unconstrained string, type in {result,error}, delivered twice; "
                    "history: 2 outstanding requests x 3 deliveries, kinds from 4 representatives; sync-reply: 6 kinds answered while the send is still in progress; nonreply: receipt / read receipt / ack / notification with an unconstrained id while an application request and a key upload are outstanding",
           "thorough": "history: 3 outstanding requests x 3 deliveries (first kind fixed per case, others from 4 representatives) and 2 x 3 over 6 kinds"}
-OUTSIDE = ["reply types other than result/error (get/set with a matching id are not replies)", "id collisions through counter wrap (the counter is an unbounded int)",
+OUTSIDE = [ "id collisions through counter wrap (the counter is an unbounded int)",
            "more outstanding requests / deliveries than the bound"]
 ASSUMPTIONS = ["python-axolotl replaced by an ideal manager stub", "reply bodies have the documented shape of the request kind (C09 templates)"]
 EXPLANATION = "symbolic execution of the request registries in the assembled stack; reply id is a z3 string, histories are solver-chosen"
@@ -134,6 +134,63 @@ def h_step(ctx, kind):
     bottom.inject(_reply(rid, is_result, body))
     obs.append(("replayed-reply-invokes-no-callback", len(app.calls) == before))
     obs.append(("replayed-reply-at-most-an-ordinary-stanza", len(app.other) - n_other <= 1))
+    return obs
+
+
+def h_two_stacks(ctx):
+    """two stacks live in one process (two accounts): a reply that arrives on connection B with an unconstrained id -- possibly the id of a
+    request outstanding on A -- runs none of A's callbacks; A's genuine reply afterwards still does, exactly once"""
+    stA, bottomA, appA, mgrA = _stack()
+    stB, bottomB, appB, mgrB = _stack()
+    N = SC.N()
+    reqA, bodyA = _request("lastseen")
+    appA.request(reqA, "a")
+    bottomA.inject(N("notification", {"id": "n1", "from": "s.whatsapp.net", "type": "encrypt", "t": "1400000000"}, [N("count", {"value": "3"})]))
+    iqsA = [n for n in bottomA.down if n.tag == "iq"]
+    if len(iqsA) != 2:
+        return [("two requests outstanding on the first stack (got %d)" % len(iqsA), False)]
+    idA, upA = hooks.dict_get(iqsA[0].attributes, "id"), hooks.dict_get(iqsA[1].attributes, "id")
+    rid = H.zstr(ctx, "rid")
+    is_result = ctx.flag("reply_is_result")
+    raised = None
+    try:
+        bottomB.inject(_reply(rid, is_result, bodyA))
+    except Exception as e:
+        raised = e
+    marked = [c for c in mgrA.calls if c[0] == "set_prekeys_as_sent"]
+    obs = [("a reply on another connection runs no callback of this stack (%s)" % [c[:2] for c in appA.calls], not appA.calls and not marked and raised is None and not appB.calls)]
+    bottomA.inject(_reply(idA, True, bodyA))
+    bottomA.inject(_reply(upA, True, lambda: []))
+    ok, err = _counts(appA, "a")
+    obs.append(("the genuine reply on the right connection still reaches its callback exactly once (got %d)" % len(ok), len(ok) == 1 and not err))
+    obs.append(("the genuine key-upload reply is still honoured exactly once", len([c for c in mgrA.calls if c[0] == "set_prekeys_as_sent"]) == 1))
+    return obs
+
+
+def h_internal_groupinfo_error(ctx):
+    """the library's own group-info request (first message to a group without a sender key) is registered with a success continuation only:
+    an error reply to it runs nothing -- in particular not the success continuation on the error stanza"""
+    st, bottom, app, mgr = _stack()
+
+    class NoKey(object):
+        def isEmpty(self):
+            return True
+    mgr.load_senderkey = lambda gid: NoKey()
+    text = T._cls("protocol_messages.protocolentities.message_text.TextMessageProtocolEntity")("hi", to=G)
+    app.toLower(text)
+    iqs = [n for n in bottom.down if n.tag == "iq"]
+    obs = [("one group-info request (got %d)" % len(iqs), len(iqs) == 1)]
+    if len(iqs) != 1:
+        return obs
+    rid = H.zstr(ctx, "rid")
+    n0 = len(bottom.down)
+    raised = None
+    try:
+        bottom.inject(_reply(rid, False, lambda: []))
+    except Exception as e:
+        raised = e
+    obs.append(("an error reply (any id) to the group-info request runs no continuation: nothing is sent, nothing raises (%s)" % (type(raised).__name__ if raised else None),
+                raised is None and len(bottom.down) == n0))
     return obs
 
 
@@ -296,13 +353,15 @@ def h_nonreply(ctx):
         return [("two requests outstanding (got %d)" % len(iqs), False)]
     up_id, app_id = hooks.dict_get(up[0].attributes, "id"), hooks.dict_get(iqs[-1].attributes, "id")
     nid = H.zstr(ctx, "nid")
-    kind = ctx.choice("stanza", ["receipt", "read-receipt", "ack", "status-notification"])
+    kind = ctx.choice("stanza", ["receipt", "read-receipt", "ack", "status-notification", "server-ping"])
     if kind == "receipt":
         node = N("receipt", {"id": nid, "from": J, "t": "1400000000"})
     elif kind == "read-receipt":
         node = N("receipt", {"id": nid, "from": J, "t": "1400000000", "type": "read"})
     elif kind == "ack":
         node = N("ack", {"id": nid, "class": "message", "from": J, "t": "1400000000"})
+    elif kind == "server-ping":
+        node = N("iq", {"id": nid, "type": "get", "xmlns": "urn:xmpp:ping", "from": "s.whatsapp.net"})
     else:
         node = N("notification", {"id": nid, "from": J, "type": "status", "t": "1400000000", "notify": "nn", "offline": "0"}, [N("set", {}, None, b"hello")])
     n_other, n_down = len(app.other), len(bottom.down)
@@ -313,7 +372,8 @@ def h_nonreply(ctx):
         raised = e
     marked = [c for c in mgr.calls if c[0] == "set_prekeys_as_sent"]
     obs = [("a non-reply stanza runs no request callback (%s)" % [c[:2] for c in app.calls], not app.calls and not marked and raised is None),
-           ("a non-reply stanza is handled as an ordinary stanza: one entity at the application (got %d)" % (len(app.other) - n_other), len(app.other) == n_other + 1)]
+           ("a non-reply stanza is handled as an ordinary stanza: one entity at the application, a server ping is answered (got %d)" % (len(app.other) - n_other),
+            len(app.other) == n_other + 1 if kind != "server-ping" else len([n for n in bottom.down[n_down:] if n.tag == "iq"]) == 1)]
     # the genuine replies afterwards
     try:
         bottom.inject(_reply(up_id, True, lambda: []))
@@ -332,6 +392,8 @@ def finding_key(case, label, values, where):
     m = re.match(r"step\[(.+)\]", case)
     if m and label == "error-callback-iff-matching-error":
         return "C08|error reply to an application %s request is swallowed by the protocol layer" % m.group(1)
+    if case.startswith("nonreply[") and values and values.get("stanza") == 4:
+        return "C08|iq request with the id of an outstanding request consumes its registration"
     if case.startswith("sync-reply[contact-sync") and values and values.get("reply_is_result") is False:
         return "C08|error reply to an application contact-sync request is swallowed by the protocol layer"
     if case.startswith("history[") and values:
@@ -382,6 +444,8 @@ def cases(tier):
     cs.append(dict(name="nonreply[receipt/ack/notification with any id]", fn=h_nonreply))
     for k in ("ping", "lastseen", "group-info", "media-upload", "contact-sync", "picture-get"):
         cs.append(dict(name="sync-reply[%s,interface]" % k, fn=h_sync_reply, args=(k, "interface")))
+    cs.append(dict(name="two-stacks[reply on the other connection]", fn=h_two_stacks))
+    cs.append(dict(name="internal[group-info,error reply]", fn=h_internal_groupinfo_error))
     cs.append(dict(name="internal[key-upload]", fn=h_internal_keyupload))
     cs.append(dict(name="internal[key-fetch]", fn=h_internal_keyfetch))
     return cs
